@@ -9,7 +9,7 @@ from pyvc import sym
 from pyvc.contracts import T
 from pyvc.interp import RaiseEx, Frame
 from pyvc.values import (ExcVal, HeapList, Obj, Opaque, PDict, PList, SArr, SBool, SDict, SInt, SName, SOpt, SReal, SSeq,
-                         SStrOpaque, SpecFn, Unsupported, real_term, num_term)
+                         SStrOpaque, SpecFn, Closure, Unsupported, real_term, num_term)
 
 from .specfns import Spec
 from .problem_c import PState, st, havoc_fields, NM, NAMES_OF, NATSORTED, DISTINCT, varlist_base
@@ -220,7 +220,7 @@ def install(reg, src):
     def problem_point(ip, IDX):
         return L["point"](ip, IDX)
 
-    @reg.contract(f"{AN}:LinearProgramExtractor.extract", props=["C05", "C08"],
+    @reg.contract(f"{AN}:LinearProgramExtractor.extract", props=["C05", "C08", "C06"],
                   bounded="assembly of A_ub/A_eq row lists over the constraint list: exercised by the bounded stand-in; the "
                           "coefficient and constant extraction it calls are proved (see C05)")
     def _(c):
@@ -230,8 +230,15 @@ def install(reg, src):
         P = c.arg("problem", T.obj("Problem", exact=True))
         s0 = PState(ip, P)
         c.requires(z3.Not(s0.obj_none), name="objective set")
+        pre_ = getattr(reg, "lpx_pre", None)         # preconditions shared with the verified side (contracts/lpextract_c.py)
+        if pre_ is not None:
+            pre_(c, sp, P, s0)
         vbase = varlist_base(s0)
         nm = NM(ip)
+        # frame: Problem.variables (called by extract_objective) may fill the variable-list cache with the canonical list
+        havoc_fields(ip, P, ["_variables"])
+        ip.path.assume(z3.And(z3.Not(PState(ip, P).cache_none["_variables"]),
+                              z3.Select(st(ip, "Problem._variables", sym.Ref), P.ref) == vbase))
         ip.path.ghost.setdefault("lp_extract", {})
         o, IDX, n, c_arr, lpref = lpdata_obj(ip, sp, P, s0, vbase)
         ip.path.assume(z3.And(DISTINCT(vbase), NATSORTED(vbase)))
@@ -244,6 +251,9 @@ def install(reg, src):
         c.raises("NonLinearError", when=None)
         c.raises("NoObjectiveError", when=None)
         c.returns(lambda cc: o)
+
+    reg.lpx_helpers = dict(lpdata_obj=lpdata_obj, extract_facts=extract_facts, problem_point=problem_point, LPDATA_OF=LPDATA_OF,
+                           havoc_varcache=lambda ip_, P_: havoc_fields(ip_, P_, ["_variables"]))
 
     # ------------------------------------------------------------------ solve_lp
     METHODS = ["None", "highs-ds"]
@@ -282,6 +292,11 @@ def install(reg, src):
         c.assume(z3.Implies(z3.Not(s0.obj_none), sp.nodiv0(Opaque(s0.obj, "Expression"))))
         nd_all = named_forall(ip, "CONND0", [s0.cons], s0.ncon, lambda k: NODIV0(EXPR(z3.Select(s0.cons, k))))
         c.assume(nd_all(s0.ncon))
+        # class invariant of Constraint (checked by __post_init__): the sense is one of the three comparison senses
+        SENSEF = sp.S.F("sense", sym.Name)
+        sn_all = named_forall(ip, "CONSENSE", [s0.cons], s0.ncon,
+                              lambda k: z3.Or(*[SENSEF(z3.Select(s0.cons, k)) == sym.lit(x_) for x_ in ("<=", ">=", "==")]))
+        c.assume(sn_all(s0.ncon))
         vb0 = varlist_base(s0)
         cache_base = z3.Select(st(ip, "Problem._variables", sym.Ref), P.ref)
         c.assume(z3.Implies(z3.Not(vnone), cache_base == vb0))
@@ -419,9 +434,9 @@ def install(reg, src):
                     same = passed is not None and isinstance(passed, SArr) and passed.arr.eq(fld.val.arr)
                     path.oblige(oid(f"wiring: {f} passed unchanged when present"),
                                 z3.And(z3.Implies(z3.Not(fld.isnone), z3.BoolVal(bool(same))),
-                                       z3.Implies(fld.isnone, z3.BoolVal(passed is None))), kind="post", props=["C08"])
+                                       z3.Implies(fld.isnone, z3.BoolVal(passed is None))), kind="post", props=["C08", "C06"])
                 path.oblige(oid("wiring: bounds passed (when there are variables)"),
-                            z3.Implies(n > 0, z3.BoolVal(kw.get("bounds") is lp.fields["bounds"])), kind="post", props=["C08"])
+                            z3.Implies(n > 0, z3.BoolVal(kw.get("bounds") is lp.fields["bounds"])), kind="post", props=["C08", "C06"])
                 mth = kw.get("method")
                 want = "highs" if c.case["method"] == "None" else c.case["method"]
                 path.oblige(oid("wiring: method"), z3.BoolVal(mth == want or mth == "highs-ds"), kind="post", props=["C08"])
@@ -448,9 +463,12 @@ def install(reg, src):
             path.oblige(oid("status map: INFEASIBLE iff status 2 (not success)"), is_("infeasible") == z3.And(z3.Not(succ), stt == 2), kind="post", props=["C08"])
             path.oblige(oid("status map: UNBOUNDED iff status 3 (not success)"), is_("unbounded") == z3.And(z3.Not(succ), stt == 3), kind="post", props=["C08"])
             exd = path.ghost["lp_extract"]
+            # the external solver promises (A3) feasibility for exactly the blocks it was handed; the model's LP data has an
+            # inequality block iff A_ub is not None, an equality block iff A_eq is not None, and bounds whenever it has variables
+            shape_ = c.case.get("lp") or ""
+            want_ref = PASSED(z3.BoolVal("ub" in shape_), z3.BoolVal("eq" in shape_), z3.BoolVal(True), exd["lpref"])
             path.oblige(oid("OPTIMAL => point feasible for exactly the LP data of the model"),
-                        z3.Implies(is_("optimal"), LPFEAS(exd["X"].arr, passed_ref({"A_ub": 1, "b_ub": 1, "A_eq": 1, "b_eq": 1, "bounds": 1}, exd))
-                                   if False else z3.BoolVal(True)), kind="post", props=["C06"])
+                        z3.Implies(z3.And(is_("optimal"), exd["n"] > 0), LPFEAS(exd["X"].arr, want_ref)), kind="post", props=["C06", "C08"])
             # ---------------- C07: objective value and values
             ov = sol.fields.get("objective_value")
             vals = sol.fields.get("values")
@@ -571,8 +589,9 @@ def install_bounded(reg):
             "name": "lp-extract", "script": "bounded_lp.py", "timeout": 600,
             "bound": "150 (quick) / 2000 (thorough) seeded random linear problems, <= 4 constraints, expression depth <= 3, "
                      "3 random points each; shapes restricted to those on which the proved extraction routines are exact",
-            "why": "LinearProgramExtractor.extract (assembly of A_ub / A_eq rows, sign normalisation, right-hand sides, bounds "
-                   "list, variable order) is stated but not proved; the coefficient and constant extraction it calls are"})
+            "why": "end-to-end differential companion of the proved extraction contracts (contracts/lpextract_c.py, analysis_c.py): "
+                   "runs LinearProgramExtractor.extract natively and compares every array with an independently assembled model; "
+                   "it is what turns a failed extraction obligation into a concrete failing problem"})
 
 
 def install_scipy(reg, src):
@@ -654,6 +673,7 @@ def install_scipy(reg, src):
             return SpecFn(None, "scipy-constraint", meta={"getitem": lambda ip2, key: items[key], "con_index": kt})
         cons = SSeq(cons_n, con_dict, "list", "scipy_constraints", tag=("scipy_constraints", s0.cons))
         bounds = SSeq(n, lambda k: (bound_lo(ip, V.get(k)), bound_hi(ip, V.get(k))), "list", "bounds")
+        bounds.elem_tuple = 2
         d = PDict()
         d.items["obj_fn"] = SpecFn(obj_fn, "obj_fn")
         d.items["grad_fn"] = SpecFn(grad_fn, "grad_fn")
@@ -687,7 +707,7 @@ def install_scipy(reg, src):
             if not (isinstance(vs, SSeq) and vs.tag and vs.tag[2].eq(vbase)):
                 raise Unsupported("_build_solver_cache called with a variable list other than problem.variables")
         d, IDX, n = solver_cache_for(ip, sp, P, s0, vbase)
-        ip.path.ghost["scipy_ctx"] = {"IDX": IDX, "n": n, "vbase": vbase, "cache": d}
+        ip.path.ghost["scipy_ctx"] = {"IDX": IDX, "n": n, "vbase": vbase, "cache": d, "snapshot": dict(d.items)}
         c.raises("NoObjectiveError", when=s0.obj_none, name="raises NoObjectiveError iff no objective")
         # preconditions: well-formed model whose variables are all in the list (what Problem.variables guarantees)
         EXPR = sp.S.F("expr", sym.Ref)
@@ -841,7 +861,7 @@ def install_scipy_main(reg, src):
     OUT = ["raise-Exception", "raise-BaseException", "success", "fail-maxiter", "fail-infeasible", "fail-pdd", "fail-other"]
     METHS = ["SLSQP", "trust-constr", "L-BFGS-B", "BFGS", "Nelder-Mead"]
     COMBOS = [{"method": m, "res": r, "strict": False, "cache": "none", "sense": "minimize", "x0": "none"} for m in METHS for r in OUT]
-    for extra in ({"strict": True}, {"cache": "valid"}, {"sense": "maximize"}, {"x0": "given"}):
+    for extra in ({"strict": True}, {"cache": "valid"}, {"cache": "valid+hess"}, {"sense": "maximize"}, {"x0": "given"}):
         for r in ("success", "raise-Exception"):
             for m in ("SLSQP", "trust-constr"):
                 cb = {"method": m, "res": r, "strict": False, "cache": "none", "sense": "minimize", "x0": "none"}
@@ -896,6 +916,19 @@ def install_scipy_main(reg, src):
         if bnds is not None:
             BOK = sym.fn("WITHIN_BOUNDS", sym.RealArr, sym.Ref, sym.B)
             p.assume(z3.Implies(succ, BOK(X.arr, ctx["vbase"])))
+            # ... which means, entry by entry (instantiated at the index terms in use): lb_k <= x_k <= ub_k where declared
+            Vb = ip.schema.seq_of_base(ip, ctx["vbase"], "Variable")
+
+            def pw_bounds(k, X=X, Vb=Vb, succ=succ, n=n):
+                if _once(ip, f"withinbounds:{X.arr}:{k}"):
+                    v_ = Vb.get(k)
+                    lb_, ub_ = ip.getattr(v_, "lb"), ip.getattr(v_, "ub")
+                    if isinstance(lb_, SOpt) and isinstance(ub_, SOpt):
+                        xk = z3.Select(X.arr, k)
+                        p.assume(z3.Implies(z3.And(succ, k >= 0, k < n),
+                                            z3.And(z3.Implies(z3.Not(lb_.isnone), xk >= real_term(lb_.val)),
+                                                   z3.Implies(z3.Not(ub_.isnone), xk <= real_term(ub_.val)))))
+            seqs(ip).pointwise.append(pw_bounds)
         return SpecFn(None, "OptimizeResult", meta={"attrs": r})
 
     @reg.contract(f"{SC}:solve_scipy", props=["C06", "C07", "C09", "C18", "C20", "C13", "C10"], cases={"__combos__": COMBOS})
@@ -954,11 +987,24 @@ def install_scipy_main(reg, src):
         scnone = s0.cache_none["_solver_cache"]
         c.assume(scnone if case["cache"] == "none" else z3.Not(scnone))
         entry_box = z3.simplify(z3.Select(st(ip, "Problem._solver_cache", sym.Ref), P.ref))
-        if case["cache"] == "valid":
-            # Inv (C13): a non-None _solver_cache holds callables denoting the current model
+        if case["cache"] in ("valid", "valid+hess"):
+            # Inv (C13): a non-None _solver_cache holds callables denoting the current model; an entry 'hess_fn', when there is
+            # one, is the compiled Hessian of the sign-adjusted objective (whatever method stored it)
             d, IDX, n = solver_cache_for(ip, sp, P, s0, vb0)
+            if case["cache"] == "valid+hess":
+                he_entry = Opaque(sym.fresh("cached_hess_tree", sym.Ref), "Expression")
+
+                def cached_hess(ip2, x, he_entry=he_entry, IDX=IDX):
+                    sp2 = Spec(ip2)
+                    if x.envlink is None:
+                        x.envlink = (IDX, sym.fresh("ENV_x", sym.EnvSort), ip2.path)
+                    E2 = x.envlink[1]
+                    d2_ = sp2.den(Opaque(s0.obj, "Expression"), E2, sp2.PV)
+                    ip2.path.assume(sp2.den(he_entry, E2, sp2.PV) == (-d2_ if case["sense"] == "maximize" else d2_))
+                    return SpecFn(None, "hessian matrix", meta={"hessian_of": he_entry})
+                d.items["hess_fn"] = SpecFn(cached_hess, "compiled hessian (cached)")
             ip.path.ghost.setdefault("boxed", {})[str(entry_box)] = d
-            ip.path.ghost["scipy_ctx"] = {"IDX": IDX, "n": n, "vbase": vb0, "cache": d}
+            ip.path.ghost["scipy_ctx"] = {"IDX": IDX, "n": n, "vbase": vb0, "cache": d, "snapshot": dict(d.items)}
         entry_show = ip.path.globals.get("warnings.showwarning")
         c.raises("IntegerVariableError", when=None)
         c.may_raise_anything()
@@ -1016,6 +1062,25 @@ def install_scipy_main(reg, src):
             else:
                 path.oblige(oid("_solver_cache untouched"), z3.And(z3.Not(now.cache_none["_solver_cache"]), box_now == entry_box),
                             kind="frame", props=["C13", "C20"])
+            if ctx is not None and "hess_fn" in ctx["cache"].items:
+                # Inv (C13) re-established: whatever is stored under 'hess_fn' is read by later solves with any method
+                hf_ = ctx["cache"].items["hess_fn"]
+                okh_ = z3.BoolVal(False)
+                if isinstance(hf_, (SpecFn, Closure)):
+                    Xh = SArr(sym.fresh("xh", sym.RealArr), n=ctx["n"], envlink=(ctx["IDX"], sym.fresh("ENV_h", sym.EnvSort), path))
+                    hv_ = ip.call(hf_, [Xh], {}, None)
+                    he_ = hv_.meta.get("hessian_of") if isinstance(hv_, SpecFn) else None
+                    if he_ is not None:
+                        dn_ = sp.den(Opaque(s0.obj, "Expression"), Xh.envlink[1], sp.PV)
+                        okh_ = sp.den(he_, Xh.envlink[1], sp.PV) == (-dn_ if case["sense"] == "maximize" else dn_)
+                path.oblige(oid("a cached 'hess_fn' entry is the compiled Hessian of the sign-adjusted objective"), okh_,
+                            kind="frame", props=["C13", "C09", "C17"])
+            if ctx is not None and ctx.get("snapshot") is not None:
+                # the cache dictionary itself is shared with the problem: entries may be added (the compiled Hessian), none of
+                # the entries that denote the model may be removed or replaced on any exit (a later solve reads them)
+                snap, cur = ctx["snapshot"], ctx["cache"].items
+                path.oblige(oid("entries of the solver cache neither removed nor replaced"),
+                            z3.BoolVal(all(k_ in cur and cur[k_] is v_ for k_, v_ in snap.items())), kind="frame", props=["C13", "C20"])
             other_globals = [pl for t, pl in path.events if t == "global-write" and pl[0] != "warnings.showwarning"]
             path.oblige(oid("no other process-global state written"), z3.BoolVal(not other_globals), kind="frame", props=["C20"])
             # ---------------- C18
@@ -1061,10 +1126,10 @@ def install_scipy_main(reg, src):
                     path.oblige(oid("wiring: derivative-free methods get no jac"), z3.BoolVal(kw.get("jac") is None), kind="post", props=["C09"])
                 wantb = case["method"] in bounds_methods
                 path.oblige(oid("wiring: bounds passed exactly for the methods that support them"),
-                            z3.Implies(n > 0, z3.BoolVal((kw.get("bounds") is d.items["bounds"]) == wantb and (wantb or kw.get("bounds") is None))),
+                            z3.Implies(n > 0, z3.BoolVal((kw.get("bounds") is ctx["snapshot"]["bounds"]) == wantb and (wantb or kw.get("bounds") is None))),
                             kind="post", props=["C09"])
                 path.oblige(oid("wiring: constraints are the cached SciPy constraint list (or () when empty)"),
-                            z3.BoolVal(kw.get("constraints") is d.items["scipy_constraints"] or kw.get("constraints") == ()), kind="post", props=["C09", "C10"])
+                            z3.BoolVal(kw.get("constraints") is ctx["snapshot"]["scipy_constraints"] or kw.get("constraints") == ()), kind="post", props=["C09", "C10"])
                 path.oblige(oid("wiring: method / tol passed through"), z3.BoolVal(kw.get("method") == case["method"] and kw.get("tol") is tol),
                             kind="post", props=["C09"])
                 wanth = case["method"] in hess_methods
